@@ -5,6 +5,7 @@ import (
 	"encoding/hex"
 	"errors"
 	"fmt"
+	"time"
 
 	"github.com/koron-go/z80"
 	"github.com/koron-go/z80/verifsim/gen"
@@ -38,6 +39,13 @@ type C08Sc struct {
 	Host     []HostOp      `json:"host"`
 	// BPEdits: a device callback edits cpu.BreakPoints from inside an access while Run executes
 	BPEdits []C08BPEdit `json:"bp_edits,omitempty"`
+	// Dumb: both worlds run directly on the library's DumbMemory (ports stay on the recording device):
+	// the stop point is then compared through the registers incl. R instead of the tick count, and a
+	// Run that does not come back is caught by a real-time watchdog.
+	Dumb bool `json:"dumb,omitempty"`
+	// Block family: one block instruction in a hostile layout (C09's free layout: wrap at 0xFFFF,
+	// ranges over the instruction itself), breakpoint behind it
+	Block *C09Sc `json:"block,omitempty"`
 }
 
 // C08BPEdit is a breakpoint edit made by a device callback at a tick.
@@ -59,6 +67,33 @@ const c08MaxSteps = 3000
 func (c08) Gen(r *world.Rng, tier string, n int) interface{} {
 	sc := &C08Sc{IOSeed: r.U64()}
 	mode := r.Intn(3)
+	if n%8 == 3 {
+		// Run over a block instruction in C09's hostile layouts (event-free scenarios of its generator)
+		sc.Family = "block"
+		var b *C09Sc
+		for k := 0; ; k++ {
+			b = c09{}.Gen(r, tier, r.Intn(16)).(*C09Sc) // n/16%3 == 0: the event-free, free-layout family
+			b.DumbLen = 0
+			cnt := b.Regs.BC
+			if b.Op&3 >= 2 {
+				cnt >>= 8
+			}
+			if b.Op&0x10 != 0 && cnt > 0 && cnt <= 700 {
+				break
+			}
+		}
+		sc.Block = b
+		sc.Prog = gen.Prog{Regs: b.Regs, HaltAddr: b.Regs.PC + 2}
+		sc.BP = []uint16{b.Regs.PC + 2}
+		if r.Chance(1, 3) {
+			sc.BP = append(sc.BP, b.Regs.PC) // a breakpoint on the repeating instruction itself
+		}
+		sc.Dumb = r.Chance(1, 3)
+		for i := r.Range(1, 4); i > 0; i-- {
+			sc.Host = append(sc.Host, HostOp{Op: "run"})
+		}
+		return sc
+	}
 	if n%8 == 7 {
 		// PC wrap-around family: straight-line code across 0xFFFF -> 0x0000
 		sc.Family = "wrap"
@@ -89,6 +124,7 @@ func (c08) Gen(r *world.Rng, tier string, n int) interface{} {
 		}
 	} else {
 		sc.Family = "structured"
+		sc.Dumb = r.Chance(1, 8)
 		o := gen.Opts{IO: true, Blocks: r.Range(3, 16), MaxSubs: 3, EI: true, StartEI: r.Chance(3, 4)}
 		p := gen.Structured(r, o)
 		p.Regs.IM = mode
@@ -105,6 +141,9 @@ func (c08) Gen(r *world.Rng, tier string, n int) interface{} {
 			default:
 				ev.AtTick = uint64(r.Range(1, 1200))
 				ev.Force = r.Chance(1, 4) // a device that overwrites the slot, possibly during an acceptance
+			}
+			if sc.Dumb && ev.AtTick != 0 {
+				ev.AtTick, ev.Force = 0, false // no memory ticks on the bare library type: raised by the host instead
 			}
 			sc.Events = append(sc.Events, ev)
 		}
@@ -130,7 +169,7 @@ func (c08) Gen(r *world.Rng, tier string, n int) interface{} {
 	if len(sc.BP) == 0 {
 		sc.NilBP = r.Bool()
 	}
-	if sc.Family == "structured" && r.Chance(1, 4) {
+	if sc.Family == "structured" && !sc.Dumb && r.Chance(1, 4) {
 		a := instrAddrs(&sc.Prog)
 		for i := r.Range(1, 2); i > 0; i-- {
 			e := C08BPEdit{AtTick: uint64(r.Range(1, 600)), Replace: r.Bool()}
@@ -203,6 +242,21 @@ type c08World struct {
 }
 
 func c08New(sc *C08Sc) (*world.Machine, error) {
+	if sc.Block != nil {
+		m, _ := world.NewMachine(sc.Block.Regs, nil, sc.IOSeed, nil)
+		m.Bus.Mem = *c09Image(sc.Block)
+		m.Bus.KeepPorts = true
+		m.CPU.BreakPoints = map[uint16]struct{}{}
+		for _, a := range sc.BP {
+			m.CPU.BreakPoints[a] = struct{}{}
+		}
+		if sc.Dumb {
+			dm := make(z80.DumbMemory, 65536)
+			copy(dm, m.Bus.Mem[:])
+			m.CPU.Memory = dm
+		}
+		return m, nil
+	}
 	segs := sc.Prog.Segs()
 	for _, h := range sc.Handlers {
 		segs = append(segs, h.Seg())
@@ -220,6 +274,11 @@ func c08New(sc *C08Sc) (*world.Machine, error) {
 		return nil, err
 	}
 	m.Bus.KeepPorts = true
+	if sc.Dumb {
+		dm := make(z80.DumbMemory, 65536)
+		copy(dm, m.Bus.Mem[:])
+		m.CPU.Memory = dm
+	}
 	if !sc.NilBP || len(sc.BP) > 0 {
 		m.CPU.BreakPoints = map[uint16]struct{}{}
 		for _, a := range sc.BP {
@@ -253,9 +312,19 @@ func applyBP(cpu *z80.CPU, op HostOp) {
 // Step; after each Step the breakpoint test on the new PC first, then "a HALT
 // instruction was executed" decided from the bus history.
 func stepRun(m *world.Machine, maxSteps int) (err error, steps int, haltExec bool, ok bool) {
+	dm, bare := m.CPU.Memory.(z80.DumbMemory)
 	for steps < maxSteps {
+		var opBefore uint8
+		if bare {
+			opBefore = dm[m.CPU.PC]
+		}
 		si := m.StepNoBoundary()
 		steps++
+		if bare {
+			// no memory history on the bare library type: HALT executed = not an acceptance, the byte at PC was
+			// 76h BEFORE the Step (a block instruction may write one there) and PC did not move
+			si.Halted = !si.Accepted && opBefore == 0x76 && m.CPU.PC == si.Before.PC
+		}
 		if m.CPU.BreakPoints != nil {
 			if _, hit := m.CPU.BreakPoints[m.CPU.PC]; hit {
 				return z80.ErrBreakPoint, steps, si.Halted, true
@@ -369,7 +438,28 @@ func (c08) Exec(sci interface{}, env *Env) *Violation {
 			env.Steps += uint64(steps)
 			budget = tw.Bus.Tick + 64
 			memBefore := rn.Bus.Mem
-			gotErr, over := safeRun(rn.CPU, context.Background())
+			var gotErr error
+			var over *overrun
+			if sc.Dumb {
+				// nothing ticks on the bare memory: a Run that does not stop is caught by the clock
+				type res struct {
+					e error
+					o *overrun
+				}
+				ch := make(chan res, 1)
+				go func() {
+					e, o := safeRun(rn.CPU, context.Background())
+					ch <- res{e, o}
+				}()
+				select {
+				case r := <-ch:
+					gotErr, over = r.e, r.o
+				case <-time.After(30 * time.Second):
+					return viol("run-overrun", "%s: Run on the library's DumbMemory did not return within 30 s of real time; repeated Step stops after %d Steps with %s", what, steps, errName(wantErr))
+				}
+			} else {
+				gotErr, over = safeRun(rn.CPU, context.Background())
+			}
 			budget = 0
 			if over != nil {
 				return viol("run-overrun", "%s: Run was still executing at tick %d; repeated Step stops at tick %d after %d Steps with %s (started at tick %d, PC=%04x)", what, over.tick, tw.Bus.Tick, steps, errName(wantErr), t0, before.PC)
@@ -384,6 +474,10 @@ func (c08) Exec(sci interface{}, env *Env) *Violation {
 				if rn.CPU.HALT != haltExec {
 					return viol("halt-indication", "%s: Run returned %s with HALT=%t; a HALT instruction %s executed in its last Step", what, errName(gotErr), rn.CPU.HALT, map[bool]string{true: "was", false: "was not"}[haltExec])
 				}
+			}
+			if dmr, ok := rn.CPU.Memory.(z80.DumbMemory); ok {
+				copy(rn.Bus.Mem[:], dmr) // the image lives in the library type: mirror it for the comparisons below
+				copy(tw.Bus.Mem[:], tw.CPU.Memory.(z80.DumbMemory))
 			}
 			if wantErr == nil && rn.Bus.Mem[rn.CPU.PC] != 0x76 {
 				return viol("halt-pc", "%s: Run returned nil but PC=%04x does not address a HALT opcode", what, rn.CPU.PC)
